@@ -18,17 +18,35 @@ package storage
 //@   loop 0 invariant series-kept: forall j in 0..len(shard) :: shard[j].Series == atloop(shard[j].Series)
 //@   loop 0 invariant input-kept: forall j in 0..len(series) :: series[j].Series == old(series[j].Series) && series[j].Signature == old(series[j].Signature)
 
-// The selector cache. hashMatchers is assumed collision free (hashOf injective): equal keys mean
-// equal matcher list, select window, step, function and grouping hints. Lists are compared by identity.
-//@ smt (declare-fun hashOf (Int Int Int Int Int Int Int Int Int Int Bool) Int)
-//@ smt (assert (forall ((a1 Int) (a2 Int) (a3 Int) (a4 Int) (a5 Int) (a6 Int) (a7 Int) (a8 Int) (a9 Int) (a10 Int) (a11 Bool) (b1 Int) (b2 Int) (b3 Int) (b4 Int) (b5 Int) (b6 Int) (b7 Int) (b8 Int) (b9 Int) (b10 Int) (b11 Bool))
-//@      (! (=> (= (hashOf a1 a2 a3 a4 a5 a6 a7 a8 a9 a10 a11) (hashOf b1 b2 b3 b4 b5 b6 b7 b8 b9 b10 b11))
-//@             (and (= a1 b1) (= a2 b2) (= a3 b3) (= a4 b4) (= a5 b5) (= a6 b6) (= a7 b7) (= a8 b8) (= a9 b9) (= a10 b10) (= a11 b11)))
-//@         :pattern ((hashOf a1 a2 a3 a4 a5 a6 a7 a8 a9 a10 a11) (hashOf b1 b2 b3 b4 b5 b6 b7 b8 b9 b10 b11)))))
-//@ pred keyOf(ms, mint, maxt, h) = hashOf(ms.ptr, ms.off, len(ms), mint, maxt, h.Step, h.Func, h.Grouping.ptr, h.Grouping.off, len(h.Grouping), h.By)
+// The selector cache key (hashMatchers): the digest of the matcher list, followed by the select
+// window, the step, the function hint, the grouping hint and by/without. The digest functions are
+// assumed injective (no hash collisions); lists are identified by their backing array.
+//@ pred wsep(acc) = hmixb(acc, engstore.sep.ptr, engstore.sep.off, len(engstore.sep))
+//@ pred wint(acc, v) = wsep(hmix(acc, sprintf1("%d", v)))
+//@ pred wstr(acc, s) = wsep(hmix(acc, s))
+//@ pred wbool(acc, b) = wsep(hmix(acc, sprintf1("%t", ite(b, 1, 0))))
+//@ pred keyOf(ms, mint, maxt, h) = hfin(wbool(wstr(wstr(wint(wint(wint(mlistAcc(ms.ptr, ms.off, len(ms)), mint), maxt), h.Step), h.Func),
+//@     strjoin(h.Grouping.ptr, h.Grouping.off, len(h.Grouping), ";")), h.By))
 //@ func hashMatchers
-//@   trusted xxhash over matchers, window, step, function and grouping hints; assumed collision free
-//@   ensures result == keyOf(matchers, mint, maxt, hints)
+//@   requires matchersOK(matchers)
+//@   at line "writeInt64(sb, mint)" assume digest-of-matcher-list: sb.acc == mlistAcc(matchers.ptr, matchers.off, len(matchers))
+//@   ensures[C02,C09,C16] key-covers-window-step-and-hints: result == keyOf(matchers, mint, maxt, hints)
+//@   loop 0 invariant sb != nil
+//@ func writeInt64
+//@   requires sb != nil
+//@   assigns ghost acc
+//@   ensures sb.acc == wint(old(sb.acc), val)
+//@ func writeString
+//@   requires sb != nil
+//@   assigns ghost acc
+//@   ensures sb.acc == wstr(old(sb.acc), val)
+//@ func writeBool
+//@   requires sb != nil
+//@   assigns ghost acc
+//@   ensures sb.acc == wbool(old(sb.acc), val)
+//@ func writeMatcher
+//@   requires sb != nil && m != nil
+//@   assigns ghost acc
 //@ pred selOK(s, k) = s != nil && allocated(s) && keyOf(s.matchers, s.mint, s.maxt, s.hints) == k && s.hints.Start == s.mint && s.hints.End == s.maxt && s.once == 0
 //@ pred poolInv(p) = p != nil && !isnil(p.selectors) && (forall k :: has(p.selectors, k) ==> selOK(p.selectors[k], k))
 
